@@ -28,6 +28,17 @@ Theorem C19_config_ok_counts_exact : forall c sched, config_ok c = true -> count
   shared (crun sched) = length sched.
 Proof. exact config_ok_counts_exact. Qed.
 
+(* asking a termination condition to terminate from another thread: with eval() testing terminate_ first (obligation
+   ptc_eval_terminate_first of the translator), every eval() after a terminate() is true under every interleaving with the
+   evaluation thread's stores; the cached-value-only design is refuted by a three-event schedule *)
+Theorem C19_terminate_from_another_thread_sticks : forall periodic fn s before after,
+  Forall (fun b => b = true) (prun true periodic fn (fst (fold_left (fun st e => (fst (pstep true periodic fn (fst st) e), tt)) (before ++ [PTerminate]) (s, tt))) after).
+Proof. exact terminate_sticks. Qed.
+Theorem C19_cached_only_terminate_refuted : prun false true false (mkP false false) [PTerminate; PThreadStore false; PEval] = [false].
+Proof. exact cached_only_design_refuted. Qed.
+
+Print Assumptions C19_terminate_from_another_thread_sticks.
+Print Assumptions C19_cached_only_terminate_refuted.
 Print Assumptions C19_atomic_counters_exact.
 Print Assumptions C19_plain_counters_refuted.
 Print Assumptions C19_locked_structure_is_sequential.
@@ -36,6 +47,7 @@ Print Assumptions C19_config_ok_counts_exact.
 
 Example C19_nonvacuous :
   shared (crun [AInc 0; AInc 1; AInc 0; AInc 2]) = 4 /\
-  config_ok (mkCfg true true true true true true true true) = true /\ config_ok (mkCfg false true true true true true true true) = false /\
+  config_ok (mkCfg true true true true true true true true true) = true /\ config_ok (mkCfg false true true true true true true true true) = false /\
+  prun true true false (mkP false false) [PEval; PThreadStore true; PEval; PThreadStore false; PEval; PTerminate; PThreadStore false; PEval] = [false; true; false; true] /\
   lrun nat nat nat (fun s o => (s + o, s)) 0 [(0, 5); (1, 7); (0, 1)] = (13, [(0, 0); (1, 5); (0, 12)]).
 Proof. vm_compute. repeat split. Qed.
